@@ -560,9 +560,9 @@ static const kw_t *const kw_tables[NFORMATS] = {
 
 /* number replacements */
 static const char *const num_repl[] = {
-    "0", "-1", "1e308", "nan", "1x", "", "9"
+    "0", "-1", "1e308", "nan", "1x", "", "9", "65536", "1500"
 };
-#define NNUMREPL 7
+#define NNUMREPL 9
 
 /* YAML structural substitutions for a value (children are dropped) */
 static const char *const ysub[] = {
